@@ -9,6 +9,7 @@ Record case := mkCase {
   c_n : nat; c_prov : C03.provspec; c_table : list (list bool * option Q);
   c_P : mcparams;                         (* null_score, mean_score, tolerance, truncation steps, timeout *)
   c_dt : Q;                               (* scripted clock: time() = dt * (number of utility evaluations so far) *)
+  c_jump : Q;                             (* ... + jump at every reading but the first (a stall right after the start) *)
   c_stream : list (list nat);             (* `iterations` permutations from an INDEPENDENT RandomState(seed) (or the script) *)
   c_tol : Q;
   c_uniform : nat;                        (* > 0: the stream is that many copies of ALL permutations of the units *)
@@ -23,7 +24,7 @@ Definition v_model (c : case) (m : list bool) : Q :=
   score_of (C03.lookup (c_table c)) (mc_null (c_P c)) (rows_selected (C03.prov_of (c_prov c)) m).
 Definition v_spec (c : case) (m : list bool) : Q :=
   score_of (C03.lookup (c_table c)) (mc_null (c_P c)) (C03.rows_spec (c_prov c) m).
-Definition clock_of (c : case) (k : nat) : Q := c_dt c * qn k.
+Definition clock_of (c : case) (k : nat) : Q := if Nat.eqb k 0 then 0 else c_dt c * qn k + c_jump c.
 
 Definition close_opt (tol : Q) (a b : option (list Q)) : bool :=
   match a, b with Some x, Some y => C03.close_list tol x y | None, None => true | _, _ => false end.
